@@ -109,7 +109,7 @@ def doc(kind, mid, ro_id):
 OTHERS = ['roStorySend', 'roReplace', 'roStoryMove', 'roElementAction', 'roMetadataReplace']
 
 
-def make_case(nc, nd, no, pattern, ai, perm_seed=0, other_off=0, completed=False, dup=None, source='strings'):
+def make_case(nc, nd, no, pattern, ai, perm_seed=0, other_off=0, completed=False, dup=None, source='strings', share=None):
     """-> case dict or None when the pattern does not apply."""
     kinds = ['roCreate'] * nc + ['roDelete'] * nd + [OTHERS[(i + other_off) % len(OTHERS)] for i in range(no)]
     if nc and (completed or (perm_seed + other_off + nd + no) % 4 == 3):
@@ -155,6 +155,18 @@ def make_case(nc, nd, no, pattern, ai, perm_seed=0, other_off=0, completed=False
     # distinct message ids of mixed width, roCreate not necessarily the smallest
     mids = [7, 1003, 12, 99, 100, 5, 64000, 31, 8, 2000, 9, 10, 101, 3, 77777][:n]
     mids = mids[perm_seed % max(1, n):] + mids[:perm_seed % max(1, n)]
+    if share is not None:
+        # two DIFFERENT documents carrying the same messageID: an ordinary message and the roCreate,
+        # two ordinary messages, or an ordinary message and the roDelete.  Every one of them is a
+        # document of the collection all the same
+        if share == 'create' and nc >= 1 and no >= 1:
+            mids[nc + nd] = mids[0]
+        elif share == 'others' and no >= 2:
+            mids[nc + nd + 1] = mids[nc + nd]
+        elif share == 'delete' and nd >= 1 and no >= 1:
+            mids[nc + nd] = mids[nc]
+        else:
+            return None
     docs = [doc(k, m, r) for k, m, r in zip(kinds, mids, ro_ids)]
     order = list(range(n))
     if perm_seed % 2:
@@ -213,6 +225,8 @@ def classes_of(case, flags):
         cl.append('blank-roID-among-others')
     if len(set(case['docs'])) < len(case['docs']):
         cl.append('same-document-twice')
+    elif len(set(case['meta']['mids'])) < len(case['meta']['mids']):
+        cl.append('different-documents-sharing-a-messageID')
     cl.append('source:' + case.get('source', 'strings'))
     if 'roReplace' in k:
         cl.append('roReplace-present')
@@ -292,6 +306,12 @@ def run(tier, seed, procs):
                 c5 = make_case(nc, nd, no, pat, ai, perm_seed=ps + seed, other_off=ps, source='s3')
                 if c5 is not None:
                     cases.append(c5)
+            if nc == 1 and nd <= 1 and 1 <= no <= 3 and pat in ('all-equal', 'other-deviates'):
+                for share in ('create', 'others', 'delete'):
+                    for src in ('strings', 'files', 's3'):
+                        c6 = make_case(nc, nd, no, pat, ai, perm_seed=ps + seed, other_off=ps, source=src, share=share)
+                        if c6 is not None:
+                            cases.append(c6)
             if nc <= 2 and nd <= 2 and no <= 2 and pat == 'all-equal':
                 # from files, plain and with each document in turn listed twice
                 for dup in [None] + list(range(nc + nd + no)):
